@@ -172,7 +172,7 @@ void RecordReader::Init(FILE *file, std::size_t entry_size) {
   UTIL_THROW_IF(!data_.get(), util::ErrnoException, "Failed to malloc read buffer");
   file_ = file;
   if (file) {
-    rewind(file);
+    UTIL_THROW_IF(fseek(file, 0, SEEK_SET), util::ErrnoException, "Flushing and rewinding a temporary file failed.");
     remains_ = true;
     ++*this;
   } else {
@@ -193,7 +193,7 @@ void RecordReader::Overwrite(const void *start, std::size_t amount) {
 
 void RecordReader::Rewind() {
   if (file_) {
-    rewind(file_);
+    UTIL_THROW_IF(fseek(file_, 0, SEEK_SET), util::ErrnoException, "Flushing and rewinding a temporary file failed.");
     remains_ = true;
     ++*this;
   } else {
